@@ -695,15 +695,580 @@ def index_walk_to_queue(tree):
                     ast.fix_missing_locations(fn)
 
 
+def loop_var_indexing_to_unpack(tree):
+    """``for e in X: ... e[0] ... e[2] ...`` where the loop variable is only ever read through
+    constant non-negative indexes (and is not stored in the body) is the unpacking loop
+    ``for (e__0, e__1, e__2) in X`` -- how the rows are named, not what is done with them.  (The
+    width is the largest index used + 1; for analysis only, nothing is executed.)"""
+    for fn in [n for n in ast.walk(tree) if isinstance(n, (ast.FunctionDef, ast.AsyncFunctionDef))]:
+        for lp in [n for n in _walk(fn) if isinstance(n, ast.For) and isinstance(n.target, ast.Name)]:
+            v = lp.target.id
+            parents = {}
+            for n in ast.walk(fn):
+                for c in ast.iter_child_nodes(n):
+                    parents[id(c)] = n
+            uses = [n for n in ast.walk(fn) if isinstance(n, ast.Name) and n.id == v and n is not lp.target]
+            inside = {id(n) for s_ in lp.body for n in ast.walk(s_)}
+            idx = []
+            ok = bool(uses)
+            for n in uses:
+                par = parents.get(id(n))
+                if id(n) in inside and isinstance(n.ctx, ast.Load) and isinstance(par, ast.Subscript) and \
+                        par.value is n and isinstance(par.ctx, ast.Load) and \
+                        isinstance(par.slice, ast.Constant) and isinstance(par.slice.value, int) and \
+                        not isinstance(par.slice.value, bool) and 0 <= par.slice.value < 8:
+                    idx.append((par, par.slice.value))
+                else:
+                    ok = False
+            if not ok or not idx:
+                continue
+            width = max(k for _p, k in idx) + 1
+            if width < 2:
+                continue
+            names = ['%s__%d' % (v, k) for k in range(width)]
+            taken = {n.id for n in ast.walk(fn) if isinstance(n, ast.Name)}
+            if set(names) & taken:
+                continue
+            lp.target = ast.copy_location(ast.Tuple(
+                elts=[ast.Name(id=nm, ctx=ast.Store()) for nm in names], ctx=ast.Store()), lp.target)
+
+            class T(ast.NodeTransformer):
+                def visit_Subscript(self, n):
+                    self.generic_visit(n)
+                    for par, k in idx:
+                        if n is par:
+                            return ast.copy_location(ast.Name(id=names[k], ctx=ast.Load()), n)
+                    return n
+            for i_, st in enumerate(lp.body):
+                lp.body[i_] = T().visit(st)
+            ast.fix_missing_locations(fn)
+
+
+def split_keyed_lists(tree):
+    """A local ``D = {K1: [], K2: []}`` (constant keys, fresh empty lists) that is only ever
+    subscripted is one list per key: ``D[K1]`` is the local ``D__K1``; ``D[k].m(a)`` as a statement
+    with a variable key becomes ``if k == K1: D__K1.m(a) else: D__K2.m(a)`` (for the keys True /
+    False: ``if k: ... else: ...``)."""
+    import copy
+    for fn in [n for n in ast.walk(tree) if isinstance(n, (ast.FunctionDef, ast.AsyncFunctionDef))]:
+        for blk, _owner in list(_fn_blocks(fn)):
+            for st in list(blk):
+                if not (isinstance(st, ast.Assign) and len(st.targets) == 1 and
+                        isinstance(st.targets[0], ast.Name) and isinstance(st.value, ast.Dict) and
+                        1 < len(st.value.keys) <= 4 and
+                        all(isinstance(k, ast.Constant) and isinstance(k.value, (bool, str, int))
+                            for k in st.value.keys) and
+                        all(isinstance(x, ast.List) and not x.elts for x in st.value.values)):
+                    continue
+                D = st.targets[0].id
+                keys = [k.value for k in st.value.keys]
+                if len(set(map(repr, keys))) != len(keys):
+                    continue
+                parents = {}
+                for n in ast.walk(fn):
+                    for c in ast.iter_child_nodes(n):
+                        parents[id(c)] = n
+                uses = [n for n in ast.walk(fn) if isinstance(n, ast.Name) and n.id == D and
+                        n is not st.targets[0]]
+                const_sites, var_sites, ok = [], [], bool(uses)
+                for n in uses:
+                    par = parents.get(id(n))
+                    if not (isinstance(n.ctx, ast.Load) and isinstance(par, ast.Subscript) and
+                            par.value is n and isinstance(par.ctx, ast.Load)):
+                        ok = False
+                        break
+                    if isinstance(par.slice, ast.Constant) and any(
+                            repr(par.slice.value) == repr(k) for k in keys):
+                        const_sites.append(par)
+                        continue
+                    # D[k].m(args) as an expression statement, k a plain name
+                    a = parents.get(id(par))
+                    c = parents.get(id(a))
+                    e = parents.get(id(c))
+                    if isinstance(par.slice, ast.Name) and isinstance(a, ast.Attribute) and a.value is par \
+                            and isinstance(c, ast.Call) and c.func is a and isinstance(e, ast.Expr) and \
+                            e.value is c:
+                        var_sites.append((e, par))
+                        continue
+                    ok = False
+                    break
+                if not ok:
+                    continue
+                taken = {n.id for n in ast.walk(fn) if isinstance(n, ast.Name)}
+                nm = {repr(k): '%s__%s' % (D, str(k)) for k in keys}
+                if set(nm.values()) & taken:
+                    continue
+                # variable-key statements first (they are replaced as whole statements)
+                for e, par in var_sites:
+                    kname = par.slice
+                    alts = []
+                    for k in keys:
+                        cp = copy.deepcopy(e)
+                        for x in ast.walk(cp):
+                            if isinstance(x, ast.Attribute) and isinstance(x.value, ast.Subscript) and \
+                                    isinstance(x.value.value, ast.Name) and x.value.value.id == D:
+                                x.value = ast.Name(id=nm[repr(k)], ctx=ast.Load())
+                        alts.append((k, cp))
+                    if set(map(repr, keys)) == {'True', 'False'}:
+                        t = dict((repr(k), cp) for k, cp in alts)
+                        new = ast.If(test=copy.deepcopy(kname), body=[t['True']], orelse=[t['False']])
+                    else:
+                        new = None
+                        for k, cp in reversed(alts):
+                            if new is None:
+                                new = cp
+                            else:
+                                new = ast.If(test=ast.Compare(left=copy.deepcopy(kname), ops=[ast.Eq()],
+                                                              comparators=[ast.Constant(value=k)]),
+                                             body=[cp], orelse=[new])
+                    for b2, _o in _fn_blocks(fn):
+                        for j, x in enumerate(b2):
+                            if x is e:
+                                b2[j] = ast.copy_location(new, e)
+
+                class T(ast.NodeTransformer):
+                    def visit_Subscript(self, n):
+                        self.generic_visit(n)
+                        if isinstance(n.value, ast.Name) and n.value.id == D and \
+                                isinstance(n.slice, ast.Constant) and repr(n.slice.value) in nm:
+                            return ast.copy_location(ast.Name(id=nm[repr(n.slice.value)], ctx=ast.Load()), n)
+                        return n
+                T().visit(fn)
+                j = [k for k, x in enumerate(blk) if x is st][0]
+                blk[j:j + 1] = [ast.copy_location(ast.Assign(
+                    targets=[ast.Name(id=nm[repr(k)], ctx=ast.Store())],
+                    value=ast.List(elts=[], ctx=ast.Load())), st) for k in keys]
+                ast.fix_missing_locations(fn)
+
+
+def merge_adjacent_ifs(tree):
+    """``if c: A`` directly followed by ``if c: B else: C`` on the same plain local c, where A does
+    not assign c: one statement ``if c: A; B else: C``.  Then ``c = <call-free or pure method
+    expression>`` directly followed by the only statement that reads c, an ``if`` testing it:
+    the expression is put into the test."""
+    import copy
+    for fn in [n for n in ast.walk(tree) if isinstance(n, (ast.FunctionDef, ast.AsyncFunctionDef))]:
+        changed = True
+        while changed:
+            changed = False
+            for blk, _owner in list(_fn_blocks(fn)):
+                i = 0
+                while i + 1 < len(blk):
+                    a, b = blk[i], blk[i + 1]
+                    if isinstance(a, ast.If) and isinstance(b, ast.If) and not a.orelse and \
+                            isinstance(a.test, ast.Name) and isinstance(b.test, ast.Name) and \
+                            a.test.id == b.test.id and not any(
+                                isinstance(x, ast.Name) and x.id == a.test.id and
+                                isinstance(x.ctx, (ast.Store, ast.Del)) for s_ in a.body for x in ast.walk(s_)) \
+                            and not any(isinstance(x, (ast.Break, ast.Continue, ast.Return, ast.Raise))
+                                        for s_ in a.body for x in ast.walk(s_)):
+                        b.body = a.body + b.body
+                        del blk[i]
+                        changed = True
+                        continue
+                    i += 1
+        loads = {}
+        for n in ast.walk(fn):
+            if isinstance(n, ast.Name) and isinstance(n.ctx, ast.Load):
+                loads[n.id] = loads.get(n.id, 0) + 1
+        params = {a.arg for a in ast.walk(fn) if isinstance(a, ast.arg)}
+        for blk, _owner in list(_fn_blocks(fn)):
+            i = 0
+            while i + 1 < len(blk):
+                a, b = blk[i], blk[i + 1]
+                if isinstance(a, ast.Assign) and len(a.targets) == 1 and isinstance(a.targets[0], ast.Name) \
+                        and isinstance(b, ast.If) and a.targets[0].id not in params:
+                    v = a.targets[0].id
+                    t = b.test
+                    inner = t.operand if isinstance(t, ast.UnaryOp) and isinstance(t.op, ast.Not) else t
+                    stores = [x for x in ast.walk(fn) if isinstance(x, ast.Name) and x.id == v and
+                              isinstance(x.ctx, (ast.Store, ast.Del))]
+                    if isinstance(inner, ast.Name) and inner.id == v and loads.get(v) == 1 and \
+                            len(stores) == 1 and not any(
+                                isinstance(x, (ast.Yield, ast.YieldFrom, ast.Await, ast.NamedExpr, ast.Lambda))
+                                for x in ast.walk(a.value)):
+                        if inner is t:
+                            b.test = a.value
+                        else:
+                            t.operand = a.value
+                        del blk[i]
+                        continue
+                    # x is used elsewhere too: the test right after ``x = <attribute chain>`` still
+                    # reads exactly that value -- say so in the test, keep the binding
+                    if isinstance(inner, ast.Name) and inner.id == v and isinstance(a.value, ast.Attribute) \
+                            and not any(isinstance(x, (ast.Call, ast.Subscript)) for x in ast.walk(a.value)):
+                        import copy as _copy
+                        new = ast.copy_location(_copy.deepcopy(a.value), inner)
+                        if inner is t:
+                            b.test = new
+                        else:
+                            t.operand = new
+                i += 1
+        ast.fix_missing_locations(fn)
+
+
+def coalesce_aliases(tree):
+    """``Y = X`` between two plain locals that are each assigned exactly once (X not a parameter, X
+    not read before... anywhere it matters: both names denote the same object for the rest of the
+    function): X is renamed to Y and the alias statement disappears."""
+    for fn in [n for n in ast.walk(tree) if isinstance(n, (ast.FunctionDef, ast.AsyncFunctionDef))]:
+        params = {a.arg for a in fn.args.posonlyargs + fn.args.args + fn.args.kwonlyargs}
+        if fn.args.vararg:
+            params.add(fn.args.vararg.arg)
+        if fn.args.kwarg:
+            params.add(fn.args.kwarg.arg)
+        again = True
+        while again:
+            again = False
+            stores = {}
+            for n in _walk(fn):
+                if isinstance(n, ast.Name) and isinstance(n.ctx, (ast.Store, ast.Del)):
+                    stores[n.id] = stores.get(n.id, 0) + 1
+                elif isinstance(n, (ast.FunctionDef, ast.ClassDef, ast.AsyncFunctionDef)):
+                    stores[n.name] = stores.get(n.name, 0) + 2
+                elif isinstance(n, (ast.Global, ast.Nonlocal)):
+                    for nm in n.names:
+                        stores[nm] = stores.get(nm, 0) + 2
+                elif isinstance(n, (ast.Import, ast.ImportFrom)):
+                    for a in n.names:
+                        nm = (a.asname or a.name).split('.')[0]
+                        stores[nm] = stores.get(nm, 0) + 2
+            # names stored in nested scopes (closures rebinding) are not plain
+            for sub in ast.walk(fn):
+                if sub is not fn and isinstance(sub, (ast.FunctionDef, ast.Lambda, ast.AsyncFunctionDef)):
+                    for a in ast.walk(sub):
+                        if isinstance(a, ast.arg):
+                            stores[a.arg] = stores.get(a.arg, 0) + 2
+                        if isinstance(a, ast.Name) and isinstance(a.ctx, (ast.Store, ast.Del)):
+                            stores[a.id] = stores.get(a.id, 0) + 2
+            for blk, _owner in list(_fn_blocks(fn)):
+                for st in list(blk):
+                    if isinstance(st, ast.Assign) and len(st.targets) == 1 and \
+                            isinstance(st.targets[0], ast.Name) and isinstance(st.value, ast.Name):
+                        Y, X = st.targets[0].id, st.value.id
+                        if X == Y or X in params or Y in params or stores.get(X) != 1 or stores.get(Y) != 1:
+                            continue
+                        if blk is not fn.body:
+                            continue        # a conditional alias is not an identity
+                        # X must be defined at the top level of the function as well (dominates)
+                        xdef = [s_ for s_ in fn.body if isinstance(s_, ast.Assign) and any(
+                            isinstance(t, ast.Name) and t.id == X for t in s_.targets)]
+                        if len(xdef) != 1:
+                            continue
+                        for n in ast.walk(fn):
+                            if isinstance(n, ast.Name) and n.id == X:
+                                n.id = Y
+                        blk.remove(st)
+                        again = True
+                        break
+                if again:
+                    break
+
+
+def fuse_comprehension_loops(tree):
+    """``L = [E for x in I if c]`` directly followed by ``for y in L: BODY`` (L has no other use,
+    BODY neither rebinds nor calls a method on a name that I, c or E read):
+    ``for x in I: if c: y = E; BODY`` -- building the list first or filtering on the fly visit
+    the same elements in the same order."""
+    import copy
+    for fn in [n for n in ast.walk(tree) if isinstance(n, (ast.FunctionDef, ast.AsyncFunctionDef))]:
+        for blk, _owner in list(_fn_blocks(fn)):
+            i = 0
+            while i + 1 < len(blk):
+                a, lp = blk[i], blk[i + 1]
+                comp = None
+                if isinstance(a, ast.Assign) and len(a.targets) == 1 and isinstance(a.targets[0], ast.Name):
+                    v = a.value
+                    if isinstance(v, ast.ListComp):
+                        comp = v
+                    elif isinstance(v, ast.Call) and isinstance(v.func, ast.Name) and v.func.id in ('list', 'tuple') \
+                            and len(v.args) == 1 and isinstance(v.args[0], (ast.GeneratorExp, ast.ListComp)):
+                        comp = v.args[0]
+                if comp is None or not (isinstance(lp, ast.For) and not lp.orelse and
+                                        isinstance(lp.iter, ast.Name) and lp.iter.id == a.targets[0].id and
+                                        len(comp.generators) == 1 and not comp.generators[0].is_async and
+                                        isinstance(lp.target, ast.Name)):
+                    i += 1
+                    continue
+                L = a.targets[0].id
+                uses = [n for n in ast.walk(fn) if isinstance(n, ast.Name) and n.id == L]
+                if len(uses) != 2:
+                    i += 1
+                    continue
+                gen = comp.generators[0]
+                reads = {n.id for e in [gen.iter, comp.elt] + list(gen.ifs) for n in ast.walk(e)
+                         if isinstance(n, ast.Name)}
+                tnames = {n.id for n in ast.walk(gen.target) if isinstance(n, ast.Name)}
+                touched = set()
+                for s_ in lp.body:
+                    for n in ast.walk(s_):
+                        if isinstance(n, ast.Name) and isinstance(n.ctx, (ast.Store, ast.Del)):
+                            touched.add(n.id)
+                        if isinstance(n, ast.Call) and isinstance(n.func, ast.Attribute) and \
+                                isinstance(n.func.value, ast.Name):
+                            touched.add(n.func.value.id)
+                        if isinstance(n, (ast.Subscript, ast.Attribute)) and \
+                                isinstance(n.ctx, (ast.Store, ast.Del)) and isinstance(n.value, ast.Name):
+                            touched.add(n.value.id)
+                bodynames = {n.id for s_ in lp.body for n in ast.walk(s_) if isinstance(n, ast.Name)}
+                # a method call on a module-level name (os.unlink, re.compile) does not change what
+                # the comprehension reads from the function's own data
+                local = {n.id for n in ast.walk(fn) if isinstance(n, ast.Name) and
+                         isinstance(n.ctx, (ast.Store, ast.Del))} | {a.arg for a in ast.walk(fn)
+                                                                     if isinstance(a, ast.arg)}
+                touched &= local
+                if (reads - tnames) & touched or (tnames & bodynames and
+                                                   not (isinstance(comp.elt, ast.Name) and
+                                                        comp.elt.id == lp.target.id)):
+                    i += 1
+                    continue
+                if any(isinstance(n, (ast.Yield, ast.YieldFrom, ast.Await, ast.NamedExpr))
+                       for e in [comp.elt] + list(gen.ifs) for n in ast.walk(e)):
+                    i += 1
+                    continue
+                inner = list(lp.body)
+                if not (isinstance(comp.elt, ast.Name) and comp.elt.id == lp.target.id and
+                        isinstance(gen.target, ast.Name) and gen.target.id == lp.target.id):
+                    inner = [ast.copy_location(ast.Assign(targets=[lp.target], value=comp.elt), lp)] + inner
+                if gen.ifs:
+                    test = gen.ifs[0] if len(gen.ifs) == 1 else ast.BoolOp(op=ast.And(), values=list(gen.ifs))
+                    inner = [ast.copy_location(ast.If(test=test, body=inner, orelse=[]), lp)]
+                tgt = copy.deepcopy(gen.target)
+                for n in ast.walk(tgt):
+                    if isinstance(n, (ast.Name, ast.Tuple, ast.List)):
+                        n.ctx = ast.Store()
+                new = ast.copy_location(ast.For(target=tgt, iter=gen.iter, body=inner, orelse=[]), lp)
+                blk[i:i + 2] = [ast.fix_missing_locations(new)]
+        ast.fix_missing_locations(fn)
+
+
+def _named_format(fmt, fields):
+    """('%(a)s and %(b)d' , fields) -> ('%s and %d', ['a', 'b']); None if the string also has
+    positional conversions or names a key the dict display does not have"""
+    import re
+    order = []
+    pat = re.compile(r'%(?:\((\w+)\))?([#0\- +]*(?:\d+|\*)?(?:\.(?:\d+|\*))?[hlL]?[diouxXeEfFgGcrsa%])')
+    out, pos = [], 0
+    for m_ in pat.finditer(fmt):
+        out.append(fmt[pos:m_.start()])
+        pos = m_.end()
+        if m_.group(2).endswith('%') and m_.group(1) is None:
+            out.append('%%')
+            continue
+        if m_.group(1) is None or m_.group(1) not in fields:
+            return None
+        order.append(m_.group(1))
+        out.append('%' + m_.group(2))
+    out.append(fmt[pos:])
+    if not order:
+        return None
+    return ''.join(out), order
+
+
+def dissolve_dict_literals(tree):
+    """A local bound exactly once to a dict display with constant string keys and call-free values
+    that is only ever read as ``D['key']``, ``**D`` in a call or ``fmt % D`` is a record of named
+    values: ``D['key']`` becomes the value, ``f(**D)`` becomes ``f(key=value, ...)``.  A call
+    ``f(**{'k': v})`` gets the keywords directly, and a statement ``return f(**(A if c else B))`` /
+    ``f(**(A if c else B))`` becomes an if statement over the two calls."""
+    import copy
+
+    def pure(e):
+        return not any(isinstance(x, (ast.Call, ast.Await, ast.Yield, ast.YieldFrom, ast.NamedExpr, ast.Lambda))
+                       for x in ast.walk(e)) or all(
+            isinstance(x, ast.Call) and isinstance(x.func, ast.Name) and x.func.id in ('len', 'str', 'repr')
+            for x in ast.walk(e) if isinstance(x, ast.Call))
+    for fn in [n for n in ast.walk(tree) if isinstance(n, (ast.FunctionDef, ast.AsyncFunctionDef))]:
+        # 1. conditional ** argument at statement level
+        for blk, _owner in list(_fn_blocks(fn)):
+            for j, st in enumerate(list(blk)):
+                call = st.value if isinstance(st, (ast.Return, ast.Expr)) and isinstance(
+                    getattr(st, 'value', None), ast.Call) else None
+                if call is None:
+                    continue
+                ks = [k for k in call.keywords if k.arg is None and isinstance(k.value, ast.IfExp)]
+                if len(ks) == 1 and pure(ks[0].value.test):
+                    k = ks[0]
+                    a, b = copy.deepcopy(st), copy.deepcopy(st)
+                    for variant, val in ((a, k.value.body), (b, k.value.orelse)):
+                        for kk in variant.value.keywords:
+                            if kk.arg is None and isinstance(kk.value, ast.IfExp):
+                                kk.value = copy.deepcopy(val)
+                    idx = [i_ for i_, x in enumerate(blk) if x is st][0]
+                    blk[idx] = ast.fix_missing_locations(ast.copy_location(
+                        ast.If(test=k.value.test, body=[a], orelse=[b]), st))
+        # 2. ** of a dict display
+        for c in [n for n in ast.walk(fn) if isinstance(n, ast.Call)]:
+            new = []
+            for k in c.keywords:
+                if k.arg is None and isinstance(k.value, ast.Dict) and all(
+                        isinstance(x, ast.Constant) and isinstance(x.value, str) and x.value.isidentifier()
+                        for x in k.value.keys):
+                    new.extend(ast.keyword(arg=x.value, value=v) for x, v in zip(k.value.keys, k.value.values))
+                else:
+                    new.append(k)
+            c.keywords = new
+        # 3. record locals
+        parents = {}
+        for n in ast.walk(fn):
+            for ch in ast.iter_child_nodes(n):
+                parents[id(ch)] = n
+        for blk, _owner in list(_fn_blocks(fn)):
+            for st in list(blk):
+                if not (isinstance(st, ast.Assign) and len(st.targets) == 1 and
+                        isinstance(st.targets[0], ast.Name) and isinstance(st.value, ast.Dict) and
+                        st.value.keys and all(isinstance(k, ast.Constant) and isinstance(k.value, str)
+                                              for k in st.value.keys)):
+                    continue
+                D = st.targets[0].id
+                uses = [n for n in ast.walk(fn) if isinstance(n, ast.Name) and n.id == D and
+                        n is not st.targets[0]]
+                if not all(pure(v) for v in st.value.values):
+                    # values with calls: only when the single use is in the very next statement
+                    k_ = [i_ for i_, x in enumerate(blk) if x is st][0]
+                    nxt_ = blk[k_ + 1] if k_ + 1 < len(blk) else None
+                    if not (len(uses) == 1 and nxt_ is not None and
+                            any(x is uses[0] for x in ast.walk(nxt_)) and
+                            sum(1 for v in st.value.values if not pure(v)) == 1):
+                        continue
+                fields = {k.value: v for k, v in zip(st.value.keys, st.value.values)}
+                if len(fields) != len(st.value.keys) or not uses:
+                    continue
+                # the values must still mean the same where they are used: the names they read are
+                # not rebound anywhere in the function
+                vnames = {x.id for v in fields.values() for x in ast.walk(v) if isinstance(x, ast.Name)}
+                stored = {}
+                for x in ast.walk(fn):
+                    if isinstance(x, ast.Name) and isinstance(x.ctx, (ast.Store, ast.Del)):
+                        stored[x.id] = stored.get(x.id, 0) + 1
+                params = {a.arg for a in ast.walk(fn) if isinstance(a, ast.arg)}
+                if any(stored.get(v, 0) > (0 if v in params else 1) for v in vnames) or stored.get(D) != 1:
+                    continue
+                plan, ok = [], True
+                for n in uses:
+                    par = parents.get(id(n))
+                    if isinstance(n.ctx, ast.Load) and isinstance(par, ast.Subscript) and par.value is n and \
+                            isinstance(par.ctx, ast.Load) and isinstance(par.slice, ast.Constant) and \
+                            par.slice.value in fields:
+                        plan.append(('sub', par))
+                    elif isinstance(par, ast.keyword) and par.arg is None and par.value is n and \
+                            all(k.isidentifier() for k in fields):
+                        plan.append(('kw', par))
+                    elif isinstance(par, ast.BinOp) and isinstance(par.op, ast.Mod) and par.right is n and \
+                            isinstance(par.left, ast.Constant) and isinstance(par.left.value, str) and \
+                            _named_format(par.left.value, fields) is not None:
+                        plan.append(('fmt', par))
+                    else:
+                        ok = False
+                if not ok:
+                    continue
+                for kind, node in plan:
+                    if kind == 'fmt':
+                        fmt, order = _named_format(node.left.value, fields)
+                        node.left = ast.copy_location(ast.Constant(value=fmt), node.left)
+                        node.right = ast.copy_location(ast.Tuple(
+                            elts=[copy.deepcopy(fields[k]) for k in order], ctx=ast.Load()), node.right)
+                    if kind == 'kw':
+                        call = parents.get(id(node))
+                        i_ = call.keywords.index(node)
+                        call.keywords[i_:i_ + 1] = [ast.keyword(arg=k, value=copy.deepcopy(v))
+                                                    for k, v in fields.items()]
+
+                class T(ast.NodeTransformer):
+                    def visit_Subscript(self, n):
+                        self.generic_visit(n)
+                        for kind, node in plan:
+                            if kind == 'sub' and node is n:
+                                return ast.copy_location(copy.deepcopy(fields[n.slice.value]), n)
+                        return n
+                T().visit(fn)
+                blk.remove(st)
+                if not blk:
+                    blk.append(ast.Pass())
+        ast.fix_missing_locations(fn)
+
+
+def propagate_param_copies(tree):
+    """``x = p`` where p is a parameter that is never rebound: until x is bound again (same block,
+    nested statements included when they do not bind x) every read of x is a read of p; a binding
+    that is not read afterwards is dropped.  (Several unrolled copies of one loop body re-use one
+    local for different parameters: ``content = stdout ... content = stderr ...``.)"""
+    for fn in [n for n in ast.walk(tree) if isinstance(n, (ast.FunctionDef, ast.AsyncFunctionDef))]:
+        params = {a.arg for a in fn.args.posonlyargs + fn.args.args + fn.args.kwonlyargs}
+        stored = {n.id for n in ast.walk(fn) if isinstance(n, ast.Name) and
+                  isinstance(n.ctx, (ast.Store, ast.Del))}
+        stable = params - stored
+        if not stable:
+            continue
+        nested_names = {n.id for sub in ast.walk(fn) if sub is not fn and
+                        isinstance(sub, (ast.FunctionDef, ast.Lambda, ast.AsyncFunctionDef))
+                        for n in ast.walk(sub) if isinstance(n, ast.Name)}
+
+        def binds(node, x):
+            return any(isinstance(n, ast.Name) and n.id == x and isinstance(n.ctx, (ast.Store, ast.Del))
+                       for n in ast.walk(node))
+        for blk, _owner in list(_fn_blocks(fn)):
+            i = 0
+            while i < len(blk):
+                st = blk[i]
+                if isinstance(st, ast.Assign) and len(st.targets) == 1 and isinstance(st.targets[0], ast.Name) \
+                        and isinstance(st.value, ast.Name) and st.value.id in stable and \
+                        st.targets[0].id not in params and st.targets[0].id not in nested_names:
+                    x, p_ = st.targets[0].id, st.value.id
+                    j = i + 1
+                    complete = True
+                    while j < len(blk):
+                        nxt = blk[j]
+                        if binds(nxt, x):
+                            # reads inside the binding statement (its right-hand side) come first
+                            if isinstance(nxt, ast.Assign) and not any(
+                                    binds(t, x) and not isinstance(t, ast.Name) for t in nxt.targets):
+                                for n in ast.walk(nxt.value):
+                                    if isinstance(n, ast.Name) and n.id == x and isinstance(n.ctx, ast.Load):
+                                        n.id = p_
+                            else:
+                                complete = False
+                            break
+                        for n in ast.walk(nxt):
+                            if isinstance(n, ast.Name) and n.id == x and isinstance(n.ctx, ast.Load):
+                                n.id = p_
+                        j += 1
+                    # is x still read anywhere this definition may reach?  (end of block reached
+                    # without a new binding: it may be read after the block)
+                    reached_end = j >= len(blk)
+                    still = False
+                    if reached_end or not complete:
+                        still = any(isinstance(n, ast.Name) and n.id == x and isinstance(n.ctx, ast.Load)
+                                    for n in ast.walk(fn))
+                    if not still:
+                        del blk[i]
+                        if not blk:
+                            blk.append(ast.Pass())
+                        continue
+                i += 1
+
+
 def canonicalise(tree, modname, log=None):
     """rename, in place, the locals that play the roles of TABLE to their canonical names"""
+    from .deiter import iterator_stack_to_recursion
+    iterator_stack_to_recursion(tree)
+    dissolve_dict_literals(tree)
+    propagate_param_copies(tree)
+    from .normalise import _propagate
+    for fn_ in [n for n in ast.walk(tree) if isinstance(n, ast.FunctionDef)]:
+        _propagate(fn_)          # f = a.b.method ... f(x)  ->  a.b.method(x)
     orient_comparisons(tree)
     split_parallel_assign(tree)
     unzip_pairs(tree)
     loops_to_comprehensions(tree)
     countdown_loops(tree)
     index_walk_to_queue(tree)
+    loop_var_indexing_to_unpack(tree)
+    split_keyed_lists(tree)
+    merge_adjacent_ifs(tree)
+    coalesce_aliases(tree)
     inline_loop_iterables(tree)
+    fuse_comprehension_loops(tree)
     for qual, roles in TABLE.items():
         mod, _, rest = qual.partition('.')
         if mod != modname:
